@@ -41,11 +41,6 @@ impl SharedState {
             .fetch_add(1, core::sync::atomic::Ordering::SeqCst)
     }
 
-    #[cfg(unimock_verif)]
-    pub(crate) fn verif_ordered_index(&self) -> &AtomicUsize {
-        &self.next_ordered_call_index
-    }
-
     pub fn clone_panic_reasons(&self) -> Vec<error::MockError> {
         self.panic_reasons.locked(|reasons| reasons.clone())
     }
@@ -63,5 +58,12 @@ impl SharedState {
 
             Some(fn_mocker.debug_pattern(pat_index))
         })
+    }
+}
+
+#[cfg(unimock_verif)]
+impl SharedState {
+    pub(crate) fn verif_ordered_index(&self) -> &AtomicUsize {
+        &self.next_ordered_call_index
     }
 }
